@@ -198,7 +198,7 @@ def resugar(n):
         if kind == 'assert':
             c = _find_not_cond(n)
             cond = resugar(c) if c is not None else None
-        return {'k': 'massert', 'name': kind, 'debug': debug, 'args': args, 'cond': cond,
+        return {'k': 'massert', 'name': kind, 'debug': debug, 'args': args, 'cond': cond, 'macro': om,
                 'sp': n.get('sp'), 'ty': '()'}
     out = {}
     for key, v in n.items():
